@@ -118,7 +118,10 @@ NotInner == {Call(q1(X)), Call(r1(X)), Call(t1(X)), UnifyG(X, b), UnifyG(X, Y), 
              AndG(<<UnifyG(X, b), FailG>>), OrG(<<AndG(<<Call(q1(X)), FailG>>), Call(t1(X))>>),
              (* a test AFTER the goal that instantiates its operand (the operand is only aliased when the not is reached) *)
              AndG(<<Call(q1(X)), Bip("equal", <<X, b>>)>>), AndG(<<Call(q1(X)), Bip("less_than", <<X, b>>)>>),
-             AndG(<<UnifyG(Y, X), Call(r1(Y)), Bip("greater_than", <<X, b>>)>>)}
+             AndG(<<UnifyG(Y, X), Call(r1(Y)), Bip("greater_than", <<X, b>>)>>),
+             (* a conjunction whose FIRST goal is a conjunction: the only answer needs a later answer of the inner tail *)
+             AndG(<<AndG(<<Call(q1(X)), Call(r1(Y))>>), Bip("equal", <<Y, c>>)>>),
+             AndG(<<AndG(<<Call(q1(Y)), Call(r1(X))>>), Bip("equal", <<X, c>>)>>)}
 NotBodies ==
        {NotG(g) : g \in NotInner}
   \cup {AndG(<<l, NotG(g)>>) : l \in {Call(q1(X)), Call(r1(X)), UnifyG(X, c)}, g \in NotInner}
@@ -257,10 +260,14 @@ LateProg == BaseFacts \o
 WrapProg == BaseFacts \o AliasExtra \o
   << Fact(Cx("pack", <<Cx("box", <<V("$Item")>>)>>)), Fact(Cx("pack", <<LstT(<<a>>, V("$Item"))>>)),
      Clause(Cx("wr", <<VA, VB>>), AndG(<<Call(Cx("pack", <<VA>>)), Call(Cx("e2", <<VB, c>>))>>)),
-     Clause(Cx("wr2", <<VA, VB>>), AndG(<<Call(Cx("pack", <<VA>>)), Call(Cx("pack", <<VB>>))>>)) >>
+     Clause(Cx("wr2", <<VA, VB>>), AndG(<<Call(Cx("pack", <<VA>>)), Call(Cx("pack", <<VB>>))>>)),
+     (* a head all of whose arguments are $_ (and a goal all of whose arguments are $_), after a goal that made a binding *)
+     Fact(Cx("seen", <<Anon>>)), Fact(Cx("seen2", <<Anon, Anon>>)),
+     Clause(Cx("wr3", <<VA, VB>>), AndG(<<Call(q1(VA)), Call(Cx("seen", <<VB>>)), Call(Cx("seen2", <<VA, c>>))>>)),
+     Clause(Cx("wr4", <<VA>>), AndG(<<Call(q1(VA)), Call(s2(Anon, Anon))>>)) >>
 ProgsAlias == PQS({BaseFacts \o AliasExtra \o <<c1_, c2_>> : c1_ \in AliasClauses, c2_ \in AliasClauses}, AliasQueries)
               \cup PQ(LateProg, {Cx("late", <<Z>>), Cx("late", <<X>>)})
-              \cup PQ(WrapProg, {Cx("wr", <<Z, W>>), Cx("wr2", <<Z, W>>), Cx("wr", <<X, Y>>)})
+              \cup PQ(WrapProg, {Cx("wr", <<Z, W>>), Cx("wr2", <<Z, W>>), Cx("wr", <<X, Y>>), Cx("wr3", <<Z, W>>), Cx("wr4", <<Z>>)})
 
 ProgQueries == CASE Slice = "andor" -> ProgsAndOr
                  [] Slice = "cut"   -> ProgsCut
